@@ -17,6 +17,16 @@ def layouts():
         o = D.fixture("kaifa", name)
         _, pos = CR.split_frame(o)
         out.append((label, D.drop_phases(o, pos, "kaifa")))
+    # identification strings of other lengths (1, 12 = the length of a date-time, 16) in the positional and the OBIS-tagged list
+    for name in ("no_list_2", "se_list"):
+        for n in (1, 12, 16):
+            o = D.fixture("kaifa", name)
+            _, pos = CR.split_frame(o)
+            root = CR.walk(o, pos)
+            kids = D.children_octets(o, root)
+            idx = 1 if name == "no_list_2" else 3           # the meter-id string
+            kids[idx] = [0x09, n] + [0x41 + (i % 26) for i in range(n)]
+            out.append((f"{name} with a {n}-character meter id", D.rebuild(o, pos, kids, 0x02)))
     return out
 
 
@@ -32,9 +42,9 @@ def scenarios(tier):
     out = []
     for label, o in layouts():
         n = len(CR.walk(o, CR.split_frame(o)[1]).children)
-        out.append(Scenario(f"kaifa {label}: all registers and texts free", path_for(label, o, False),
-                            bounds={"layout": label, "items": n, "free": "every octet of every 32-bit register; every character of every text (printable ASCII); clocks concrete here (free in C10)",
-                                    "forms": "frame and bare body"}, domains=("decoders",), frontier=3, workers=4, assumptions=A, replay_cap=40))
+        out.append(Scenario(f"kaifa {label}: all registers, texts and clocks free", path_for(label, o, True),
+                            bounds={"layout": label, "items": n, "free": "every octet of every 32-bit register; every character of every text (printable ASCII); every date-time (APDU clock and list clock independently, valid per C10's domain)",
+                                    "forms": "frame and bare body"}, domains=("decoders",), engine_opts={"slicing": True}, frontier=3, workers=4, assumptions=A, replay_cap=40))
     return out
 
 
